@@ -11,11 +11,12 @@ class C07(Prop):
     def suites(self, tier, rng):
         n = 150 if tier == "quick" else 3000
         return [Suite("uni_move_full_sync", unigen.HEADER, [unigen.gen_case(rng, "move_full_sync", profile="cancel", tail_rounds=60) for _ in range(n)]),
-                Suite("uni_move_atomic", unigen.HEADER, [unigen.gen_case(rng, "move_atomic", profile="cancel", tail_rounds=60) for _ in range(n)])]
+                Suite("uni_move_atomic", unigen.HEADER, [unigen.gen_case(rng, "move_atomic", profile="cancel", tail_rounds=60) for _ in range(n)])
+                ] + unigen.oracle_only_suites(rng, n // 2, profile="cancel", entry=False, tail_rounds=60)
     def oracle(self, case, recs):
         return unigen.oracle_cancel(case, recs) + unigen.uni_oracle_exactly_once(case, recs)
     def nontrivial(self, case, recs):
         return unigen.uni_nontrivial(case, recs)
     def parse_replay(self, text):
         lines = [l for l in text.splitlines() if l.strip() and not l.startswith("#")]
-        return Suite("replay", unigen.HEADER, [unigen.parse_case_line(l) for l in lines])
+        return Suite("replay", unigen.XHEADER, [unigen.parse_case_line(l) for l in lines])
